@@ -29,7 +29,7 @@ def _guards(fnode, node):
 
 
 # --------------------------------------------------------------------------------------- CV1
-@rule("CV1", ["C10", "C11", "C19"], "bin sample() protocol: marker set on all paths, hit iff coverage_ev(bin_idx_base+off, bin_type)", engine="SAI+XS", floor=7)
+@rule("CV1", ["C10", "C11", "C19", "C12"], "bin sample() protocol: marker set on all paths, hit iff coverage_ev(bin_idx_base+off, bin_type)", engine="SAI+XS", floor=7)
 def cv1(prog, rr):
     base = prog.cls("CoverpointBinModelBase")
     subs = prog.subclasses(base, strict=True)
